@@ -37,6 +37,7 @@ import (
 // them quickly; all others use the long net timeout so that machine load can
 // never fire it by accident.
 const (
+	shortPlay = 700 * time.Millisecond // play-phase timeout when the camera goes quiet at the end (harness steps happen inside it)
 	shortNet  = 300 * time.Millisecond
 	longNet   = 20 * time.Second
 	heartbeat = 40 * time.Millisecond
@@ -57,6 +58,7 @@ type scenario struct {
 	DirRoute       bool   `json:"dir_route"`      // the route is a directory pattern, the request goes below it
 	TrailingSlash  bool   `json:"trailing_slash"` // directory route URL ends in '/'
 	MixedCase      bool   `json:"mixed_case"`     // the request spells the path with upper-case letters
+	URLShape       string `json:"url_shape"`      // exact routes: "" = /live/ch1, "nopath" = rtsp://host:port, "root" = rtsp://host:port/, "query" = /cam/realmonitor?channel=1&subtype=0, "deep" = /a/b/c.sdp
 	SessionTimeout bool   `json:"session_timeout"`
 	CacheGop       bool   `json:"cache_gop"`
 	Initial        int    `json:"initial"`     // frames right after PLAY
@@ -78,6 +80,9 @@ func (sc *scenario) key() string {
 		if s.Kind != fakecam.OK {
 			fmt.Fprintf(&b, "%s=%s ", fakecam.Step(i), s)
 		}
+	}
+	if sc.URLShape != "" {
+		fmt.Fprintf(&b, "url=%s ", sc.URLShape)
 	}
 	fmt.Fprintf(&b, "audio=%v creds=%s dir=%v end=%s/%d auto=%v cons=%d live=%d paced=%v mode=%s", sc.Audio, sc.Creds, sc.DirRoute, fakecam.After(sc.End), sc.EndVariant, sc.AutoFinish, sc.Consumers, sc.Live, sc.Paced, sc.Mode)
 	return b.String()
@@ -137,23 +142,21 @@ func (sc *scenario) expect() (e expectation, faultStep fakecam.Step, okBefore in
 	return mustSucceed, faultStep, okBefore
 }
 
-func (sc *scenario) silent() bool {
-	for _, st := range sc.walk() {
-		if sc.Steps[st].Kind == fakecam.Silence {
-			return true
-		}
-	}
-	if fakecam.After(sc.End) == fakecam.AfterSilence || (fakecam.After(sc.End) == fakecam.AfterGarbage && sc.EndVariant%fakecam.GarbageVariants == 3) {
-		return true
-	}
-	// malformed answers may leave the client waiting for bytes that never come
+// handshakeMayStall: some step may leave the client waiting for bytes that never
+// come (silence, or a malformed answer that announces more than it delivers).
+func (sc *scenario) handshakeMayStall() bool {
 	for _, st := range sc.walk() {
 		switch sc.Steps[st].Kind {
-		case fakecam.BadHeaders, fakecam.BadStatusLine, fakecam.GarbageSDP, fakecam.FormatlessSDP, fakecam.Garbage:
+		case fakecam.Silence, fakecam.BadHeaders, fakecam.BadStatusLine, fakecam.GarbageSDP, fakecam.FormatlessSDP, fakecam.Garbage:
 			return true
 		}
 	}
 	return false
+}
+
+// playMayStall: the play phase ends with the camera going quiet.
+func (sc *scenario) playMayStall() bool {
+	return fakecam.After(sc.End) == fakecam.AfterSilence || (fakecam.After(sc.End) == fakecam.AfterGarbage && sc.EndVariant%fakecam.GarbageVariants == 3)
 }
 
 // ---------------------------------------------------------------- process-wide observations
@@ -195,10 +198,6 @@ func streamGoroutines(detail bool) (map[string]int, string) {
 			root = root[:i]
 		}
 		root = strings.TrimPrefix(root, ipchubPrefix)
-		// permanent service goroutines are not a stream's
-		if strings.HasPrefix(root, "service.") || strings.HasPrefix(root, "network/") || strings.Contains(root, "(*Service)") {
-			continue
-		}
 		out[root]++
 		if detail {
 			dump.WriteString(blk)
@@ -309,24 +308,35 @@ func stripUserinfo(u string) string {
 
 type requester interface {
 	// request asks for path and reports "stream" (with the stream when the mode
-	// can name it), "nil" for a not-found style answer, or "panic".
-	request(path string) (outcome string, s *media.Stream, detail string)
+	// can name it), "nil" for a not-found style answer, or "panic". arm installs
+	// the scenario's handshake timeouts; the requester calls it once its own
+	// connection to the server exists (server sessions copy the timeout when they
+	// are accepted).
+	request(path string, arm func()) (outcome string, s *media.Stream, detail string)
+	// verifyWire checks what the requester itself received once the camera has
+	// sent its live frames ("" = fine or not applicable).
+	verifyWire(sentAll, live []fakecam.Frame) string
+	// release ends the requester's own connection to the server.
+	release()
 }
 
 type directRequester struct{}
 
-func (directRequester) request(path string) (outcome string, s *media.Stream, detail string) {
+func (directRequester) request(path string, arm func()) (outcome string, s *media.Stream, detail string) {
 	defer func() {
 		if r := recover(); r != nil {
 			outcome, detail = "panic", fmt.Sprintf("%v\n%s", r, stacksMatching("c20.directRequester"))
 		}
 	}()
+	arm()
 	s = media.GetOrCreate(path)
 	if s == nil {
 		return "nil", nil, ""
 	}
 	return "stream", s, ""
 }
+func (directRequester) verifyWire(sentAll, live []fakecam.Frame) string { return "" }
+func (directRequester) release()                                        {}
 
 func framesFor(sc *scenario) []fakecam.Frame {
 	if sc.frames != nil {
@@ -354,7 +364,7 @@ func routeFor(sc *scenario, id int, hostport string, userinfo string) (reqPath, 
 		reqPath = pattern + "sub/cam1"
 	} else {
 		pattern = fmt.Sprintf("/c20/s%d/cam", id)
-		u := "rtsp://" + at + hostport + "/live/ch1"
+		u := "rtsp://" + at + hostport + map[string]string{"": "/live/ch1", "nopath": "", "root": "/", "query": "/cam/realmonitor?channel=1&subtype=0", "deep": "/a/b/c.sdp"}[sc.URLShape]
 		route.Save(&route.Route{Pattern: pattern, URL: u})
 		ref.Save(pattern, u, false)
 		reqPath = pattern
@@ -392,18 +402,27 @@ func okScript(audio bool, frames []fakecam.Frame, initial int) fakecam.Script {
 func runScenario(sc *scenario, rq requester) *result {
 	res := &result{}
 	id := nextID()
-	config.VerifSet(":0", false, sc.CacheGop, "", 5)
-	if sc.silent() {
-		config.VerifTimeouts(shortNet, heartbeat)
-	} else {
-		config.VerifTimeouts(longNet, heartbeat)
+	server().SetCacheGop(sc.CacheGop)
+	defer rq.release()
+	// the handshake reads take the timeout in force at each read, the play loop the
+	// one in force when it starts: the camera switches it when PLAY arrives
+	config.VerifTimeouts(longNet, heartbeat)
+	arm := func() {
+		if sc.handshakeMayStall() {
+			config.VerifTimeouts(shortNet, heartbeat)
+		}
+	}
+	playTimeout := longNet
+	if sc.playMayStall() {
+		playTimeout = shortPlay
 	}
 	base := takeBaseline()
 
 	info, camPass, md5 := userinfoFor(sc)
 	frames := framesFor(sc)
 	script := fakecam.Script{Steps: sc.Steps, User: sc.User, Pass: camPass, PassIsMD5: md5, SDP: mediah.SDP(esgen.H264, sc.Audio),
-		Frames: frames, Initial: sc.Initial, SessionTimeout: sc.SessionTimeout}
+		Frames: frames, Initial: sc.Initial, SessionTimeout: sc.SessionTimeout,
+		OnPlay: func() { config.VerifTimeouts(playTimeout, heartbeat) }}
 	if sc.AutoFinish {
 		script.AutoFinish, script.AutoFinishVariant = fakecam.After(sc.End), sc.EndVariant
 	}
@@ -432,7 +451,7 @@ func runScenario(sc *scenario, rq requester) *result {
 	}
 	done := make(chan ret, 1)
 	go func() {
-		o, s, d := rq.request(reqPath)
+		o, s, d := rq.request(reqPath, arm)
 		done <- ret{o, d, s}
 	}()
 	var r ret
@@ -450,6 +469,7 @@ func runScenario(sc *scenario, rq requester) *result {
 			return res
 		}
 		res.cam = cam.Conns()
+		rq.release()
 		cleanupChecks(res, sc, base, cam, canon, nil, true)
 		return res
 	}
@@ -471,6 +491,7 @@ func runScenario(sc *scenario, rq requester) *result {
 		playPhase(res, sc, rq, cam, r.s, canon, wantURL, frames, &recs)
 	}
 	res.cam = cam.Conns()
+	rq.release()
 	cleanupChecks(res, sc, base, cam, canon, recs, false)
 	closeCam()
 	// descriptors: everything the scenario opened is closed again
@@ -505,10 +526,16 @@ func playPhase(res *result, sc *scenario, rq requester, cam *fakecam.Camera, s *
 	end := fakecam.After(sc.End)
 	racing := sc.AutoFinish && end != fakecam.Continue // the camera may already be gone
 	// (1) registered under the requested path
+	if s == nil { // the requester is a network client: it cannot name the stream
+		s = media.Get(canon)
+		if s == nil && !racing {
+			res.failf("not-registered-on-return", "the requester got a positive answer, but media.Get(%s) = nil at that moment", canon)
+		}
+	}
 	if s != nil {
 		res.regAtOnce = media.Get(canon) == s
-		if !racing && !mediah.WaitFor(bound, func() bool { return media.Get(canon) == s }) {
-			res.failf("not-registered", "the pulled stream never appeared under %s (media.Get = %v)", canon, media.Get(canon))
+		if !racing && !res.regAtOnce {
+			res.failf("not-registered-on-return", "the request returned a stream, but media.Get(%s) at that moment = %v: the stream is not under the requested path", canon, media.Get(canon))
 		}
 	}
 	// (2) the camera saw DESCRIBE for the reference URL; (3) credentials verify
@@ -593,6 +620,9 @@ func playPhase(res *result, sc *scenario, rq requester, cam *fakecam.Camera, s *
 				res.failf("delivery", "consumer %d: %s", ci, why)
 			}
 			res.delivered += len(got)
+		}
+		if why := rq.verifyWire(sentAll, live); why != "" {
+			res.failf("delivery-wire", "%s", why)
 		}
 		_ = cids
 	}
@@ -709,7 +739,11 @@ func followUp(res *result, sc *scenario, rq requester, id int, reqPath, canon st
 	ok := &scenario{DirRoute: sc.DirRoute, TrailingSlash: sc.TrailingSlash, Creds: "right", User: "u", Pass: "p"}
 	_, _, wantURL, pattern := routeFor(ok, id, cam.HostPort(), "u:p")
 	defer route.Del(pattern)
-	o, s, d := rq.request(reqPath)
+	defer rq.release()
+	o, s, d := rq.request(reqPath, func() {})
+	if s == nil && o == "stream" {
+		s = media.Get(canon)
+	}
 	if o != "stream" {
 		res.failf("no-fresh-pull", "after the failed scenario a request for %s against a healthy camera ended with %q %s; camera saw: %s", reqPath, o, d, renderConns(cam.Conns()))
 		return
@@ -739,4 +773,50 @@ func followUp(res *result, sc *scenario, rq requester, id int, reqPath, canon st
 	for _, f := range r2.failures {
 		res.failf("follow-up/"+f.check, "%s", f.msg)
 	}
+}
+
+// sequential issues n requests for one routed path, each as soon as the
+// previous one returned.
+func sequential(sc *scenario, n int) *result {
+	res := &result{}
+	id := nextID()
+	server().SetCacheGop(false)
+	config.VerifTimeouts(longNet, heartbeat)
+	base := takeBaseline()
+	info, camPass, md5 := userinfoFor(sc)
+	frames := framesFor(sc)
+	script := fakecam.Script{Steps: sc.Steps, User: sc.User, Pass: camPass, PassIsMD5: md5, SDP: mediah.SDP(esgen.H264, sc.Audio), Frames: frames, Initial: sc.Initial}
+	cam, err := fakecam.Start(script)
+	if err != nil {
+		res.failf("harness", "camera did not start: %v", err)
+		return res
+	}
+	defer cam.Close()
+	reqPath, canon, _, pattern := routeFor(sc, id, cam.HostPort(), info)
+	defer route.Del(pattern)
+	var streams []*media.Stream
+	for i := 0; i < n; i++ {
+		s := media.GetOrCreate(reqPath)
+		if s == nil {
+			res.failf("pull-fails", "request %d of %d for %s against a healthy camera returned nil; camera saw: %s", i+1, n, reqPath, renderConns(cam.Conns()))
+			break
+		}
+		if got := media.Get(canon); got != s {
+			res.failf("not-registered-on-return", "request %d returned a stream, but media.Get(%s) at that moment = %v: the stream is not (yet) under the requested path", i+1, canon, got)
+		}
+		streams = append(streams, s)
+	}
+	for i := 1; i < len(streams); i++ {
+		if streams[i] != streams[0] {
+			res.failf("second-pull", "request %d got another stream than request 1 although that one was alive", i+1)
+		}
+	}
+	if c := cam.ConnCount(); c != 1 && len(streams) > 0 {
+		res.failf("second-pull", "%d requests in a row for %s made %d connections to the camera: %s", n, reqPath, c, renderConns(cam.Conns()))
+	}
+	for i := 0; i < cam.ConnCount(); i++ {
+		cam.Finish(i, fakecam.AfterEOF, 0)
+	}
+	cleanupChecks(res, sc, base, cam, canon, nil, false)
+	return res
 }
